@@ -11,7 +11,7 @@ SPECIAL = ['http', 'https', 'ws', 'wss', 'ftp', 'file']
 SCHEMES = SPECIAL + ['a', 'non-special', 'blob', 'mailto', 'git+ssh', 'x.y', 'HTTP', 'hTtPs', 'FILE', 'javascript', 'data']
 LENS = [0, 1, 2, 3, 7, 8, 9, 15, 16, 17, 31, 32, 33, 47, 48, 49, 64]
 
-HOSTS = ['', '', 'example.com', 'EXAMPLE.COM', 'a', 'example.0XA', 'foo.bar.0x1F', 'a.0X', 'a.0x', 'example.0xa', 'www.example.077', 'a.b.0XFF.', 'example.09', 'h.1', 'h.1.', 'a.b', 'localhost', 'LOCALHOST', '127.0.0.1', '1.2.3.4', '0x7f.1', '0x7F000001',
+HOSTS = ['', '', '%C2%AD', '\u00ad', '\u200b\u2060', '%E2%80%8B', 'a\u00ad', 'example.com', 'EXAMPLE.COM', 'a', 'example.0XA', 'foo.bar.0x1F', 'a.0X', 'a.0x', 'example.0xa', 'www.example.077', 'a.b.0XFF.', 'example.09', 'h.1', 'h.1.', 'a.b', 'localhost', 'LOCALHOST', '127.0.0.1', '1.2.3.4', '0x7f.1', '0x7F000001',
          '017700000001', '1.2.3', '1.2', '1', '256', '1.2.3.256', '1.2.3.4.5', '1.2.3.4.', '1..2', '0x', '0x.', '08', '0.08',
          '4294967295', '4294967296', '0xffffffff', '0x100000000', '1.0xffffff', '1.0x1000000', '1.2.0xffff', '1.2.65536',
          '1.2.3.0xff', 'a.1', '1.a', 'a.0x1', 'a.08', 'a.1.', 'a..1', '.1', '1.', '09', '0X10', '00000000000000000001',
@@ -35,11 +35,11 @@ QUERIES = ['', 'q', 'a=b', 'a=b&c=d', 'a b', "a'b", 'a"b', 'a<b>', 'a#b', 'a`b',
 FRAGS = ['', 'f', 'a b', 'a"b', 'a<b>', 'a`b', 'a{b}', 'a#b', 'a?b', 'a%', '\u00e9', 'a\tb', 'x' * 17, "a'b", 'a^b', 'a|b', '%00', 'a\\b']
 OPAQUES = ['', 'x', 'x y', 'x ', 'x  ', ' x', 'a/b', '/', 'a?b', 'x%20', 'x%', '\u00e9', 'a\\b', 'a"b', 'a<b>', 'a`b', 'C:', 'a:b', 'a@b',
            'text/plain,hi', 'x\ty', 'x' * 16, 'x ' * 9]
-BASES = [None, 'http://example.org/foo/bar', 'http://u:p@h:8080/a/b/c?q#f', 'https://h/', 'file:///C:/dir/file', 'file:///tmp/mock/path',
+BASES = [None, 'a:/.//?old', 'foo:/.//p/x?q#f', 'https://user@example.com/dir/file', 'http://example.org/foo/bar', 'http://u:p@h:8080/a/b/c?q#f', 'https://h/', 'file:///C:/dir/file', 'file:///tmp/mock/path',
          'file://host/share/x', 'file:///', 'a://h/p/q?x#y', 'a:/p/q', 'a:opaque', 'a:opaque?q', 'mailto:x@y', 'ws://1.2.3.4/x',
          'http://[::1]:81/x/y', 'a:///p', 'a://h', 'a:', 'http://h/a/../b/./c', 'blob:https://h/uuid', 'a:/.//p', 'file:///C:/', 'wss://h:444/a//b',
          'ftp://u@h/x;type=a', 'a://u:p@h:9/pa/th']
-RELS = ['', 'x', '/x', '//h2/p', '?q', '#f', '.', '..', '../..', './x', '../x', '//', '///', '////x', '\\x', '\\\\h3\\p', '/\\h4', 'x/../y', '?', '#',
+RELS = ['..//..', 'a//..', '//', '', 'x', '/x', '//h2/p', '?q', '#f', '.', '..', '../..', './x', '../x', '//', '///', '////x', '\\x', '\\\\h3\\p', '/\\h4', 'x/../y', '?', '#',
         'C:', 'C|/x', '/C:/x', '//C:/x', 'c:\\x', 'http:x', 'http:/x', 'http://h5', 'https:x', 'file:x', 'file:/x', 'file://h6/x', 'a:x', 'x:y',
         ':x', 'x?y#z', '%2e%2e/x', '/..//x', '/.//x', '//@h7', '//u@h8:1', '//u:p@/x', '//u@', '//@', '//u@:8/', '//h9:80', '//h:x', ' x ', '\tx', 'x\n', '/a/./b/../c', ';x', 'x;y']
 WS = ['', '', '', ' ', '\t', '\n', '\r', ' \t', '\x00', '\x1f', '\x0b']
@@ -168,7 +168,7 @@ def parse_workload(ops, rng, n, with_canparse=True):
 
 SETTERS = ['href', 'protocol', 'username', 'password', 'host', 'hostname', 'port', 'pathname', 'search', 'hash',
            'clear_port', 'clear_search', 'clear_hash']
-STARTS = ['http://example.com/', 'https://u:p@h.example:8080/a/b?q=1#f', 'http://1.2.3.4/x', 'http://[::1]/', 'ws://h:81/', 'ftp://u@h/',
+STARTS = ['a:/.//p?q#f', 'a:/.//?q', 'web+demo:/.//not-a-host/#frag', 'http://example.com/', 'https://u:p@h.example:8080/a/b?q=1#f', 'http://1.2.3.4/x', 'http://[::1]/', 'ws://h:81/', 'ftp://u@h/',
           'file:///C:/x/y', 'file://host/p', 'file:///', 'a://h/p?q#f', 'a://u:p@h:9/p', 'a:///p', 'a:/p', 'a:/.//p', 'a://h', 'a:opaque',
           'a:opaque?q#f', 'mailto:u@h', 'blob:https://h/id', 'a://', 'wss://h/', 'http://h//a//b', 'a:/', 'http://h/?#', 'file:///C|/x']
 VALUES = {
@@ -179,7 +179,7 @@ VALUES = {
             ['h/x', 'h?x', 'h#x', 'h\\x', 'h@x', 'u@h', ':81', '', 'h:81/p', '\th', 'h\n.x', 'h:\t82'],
     'hostname': HOSTS + ['h:81', 'h/x', 'h?x', 'h#x', 'h\\x', '', ':', 'u@h', '\th\n'],
     'port': PORTS + ['81/x', '82?x', '83#x', '84\\x', '8\t5', '\t86', '21', '443', '80'],
-    'pathname': ['', '/', '//', '/a', 'a', 'a/b', '/a/../b', '/.', '/..', '/./', '//x', '/.//x', '\\x', '/a\\b', '?x', '#x', '/a?b#c', 'C:', '/C:', '/C|/x',
+    'pathname': ['/x//..', '/a//..', '//..', '/a/b//../..', '', '/', '//', '/a', 'a', 'a/b', '/a/../b', '/.', '/..', '/./', '//x', '/.//x', '\\x', '/a\\b', '?x', '#x', '/a?b#c', 'C:', '/C:', '/C|/x',
                  'C|', '/%2e%2e/x', '/%2E', ' ', '/ ', '/a b', '\u00e9', '/a\tb', '/x' * 9, '///', '/..//', '/a/..//b'] + ['/' + s for s in SEGS],
     'search': QUERIES + ['?x', '??x', '#', 'a#b'],
     'hash': FRAGS + ['#x', '##x', '?'],
@@ -262,6 +262,7 @@ def history_workload(ops, rng, n, depth=12):
 
 
 GROWERS = [
+    'foo:/.//', 'a:/.//?  q', 'a:/.//#"', 'a://', 'a:/.//x/..',
     # results that grow relative to the input, placed at every exit of the parser
     'http://h/?"""" ', 'http://h/?\'\'\'\'', 'http://h?""', 'http://h#   ', 'https://example.org?q=1', 'http://example.org#f', 'https://a.b', 'http://h?', 'http://h#', 'http://h/#"<>`', 'http://h/ a b c',
     'http://h/{}{}{}', 'http://u"<>:p @h/', 'http://"""@h', 'http://h', 'ws://h?q', 'http://h\\a\\b', 'a://h/"', 'a:/p?"\'',
@@ -394,11 +395,18 @@ def canparse_workload(ops, rng, n):
     tails = ['', '/', '/p', '/p?q', '/p#f', '?q', '#f', '/a b', '/é', '\\p', '/..', '/%2e', '/"', "?'", '#`', '/' + 'x' * 20]
     for i in range(n):
         s = rng.choice(schemes) + rng.choice(seps) + rng.choice(hosts) + rng.choice(ports) + rng.choice(tails)
+        forced_base = None
+        if rng.random() < 0.2:
+            # scheme-less (or same-scheme) references whose slashes / backslashes introduce a NEW authority that has to be validated
+            s = rng.choice(['//', '\\\\', '\\/', '/\\', '///', '\\\\\\', 'http:\\\\', 'http://', 'http:/', 'https:']) + rng.choice(hosts) + rng.choice(ports) + rng.choice(tails)
+            forced_base = rng.choice(['http://example.com/a/b', 'https://example.com/', 'ws://h/x', 'ftp://u@h/', 'file:///C:/d/f', 'a://h/p'])
         if rng.random() < 0.15:
             s = rng.choice(WS) + s + rng.choice(WS)
         if rng.random() < 0.1:
             s = mutate_byte(rng, s)
         base = rng.choice(BASES) if rng.random() < 0.3 else None
+        if forced_base:
+            base = forced_base
         ops.reset()
         r = rng.random()
         if r < 0.6:
